@@ -525,6 +525,11 @@ impl<'a> Sem<'a> {
             return;
         }
         let deep = depth >= 2;
+        // a field of a def (or of a class-typed variable) of exactly this type: `d.f`
+        if !deep && matches!(ty, Ty::Str | Ty::Bit | Ty::List(_)) && self.rng.chance(1, 8) && self.has_field_access(ty) {
+            self.field_access(ty, depth);
+            return;
+        }
         // the wider operator catalogue (one application, operands generated recursively)
         if !deep && self.rng.chance(1, 4) && self.catalog(ty, depth) {
             return;
@@ -1153,6 +1158,13 @@ impl<'a> Sem<'a> {
         self.w(")");
     }
 
+    fn has_field_access(&self, ty: &Ty) -> bool {
+        self.defs.iter().any(|d| {
+            !self.name_is_local(&d.name)
+                && d.class.as_deref().and_then(|c| self.class(c)).map(|ci| ci.fields.values().any(|(t, fd)| t == ty && !self.p.decls[*fd].overridden && !self.uninit.contains(fd))).unwrap_or(false)
+        })
+    }
+
     /// `d.f` for a def `d` of a class with a field of type `ty` (falls back to a literal)
     fn field_access(&mut self, ty: &Ty, depth: usize) {
         let mut cands: Vec<(String, usize, String, usize)> = Vec::new();
@@ -1164,6 +1176,28 @@ impl<'a> Sem<'a> {
                 for (fname, (fty, fdecl)) in &ci.fields {
                     if fty == ty && !self.p.decls[*fdecl].overridden && !self.uninit.contains(fdecl) {
                         cands.push((d.name.clone(), d.decl, fname.clone(), *fdecl));
+                    }
+                }
+            }
+        }
+        // … and through visible variables of class type (e.g. the iterator of a foreach over defs)
+        let class_vars: Vec<(String, usize, String)> = self
+            .scopes
+            .iter()
+            .flatten()
+            .filter_map(|v| match &v.ty {
+                Ty::Class(c) => Some((v.name.clone(), v.decl, c.clone())),
+                _ => None,
+            })
+            .collect();
+        for (vn, vd, c) in class_vars {
+            if self.visible_of_type(&Ty::Class(c.clone())).iter().all(|x| x.1 != vd) {
+                continue; // shadowed
+            }
+            if let Some(ci) = self.class(&c) {
+                for (fname, (fty, fdecl)) in &ci.fields {
+                    if fty == ty && !self.p.decls[*fdecl].overridden && !self.uninit.contains(fdecl) {
+                        cands.push((vn.clone(), vd, fname.clone(), *fdecl));
                     }
                 }
             }
@@ -1587,6 +1621,55 @@ impl<'a> Sem<'a> {
     fn foreach_stmt(&mut self) {
         self.p.feat.nesting_constructs += 1;
         let start = self.stmt_begin();
+        // sometimes: iterate over defs of a class and read their fields through the iterator
+        let over_defs: Vec<(String, Vec<(String, usize)>)> = self
+            .classes
+            .iter()
+            .map(|c| (c.name.clone(), self.defs_of_class(&c.name)))
+            .filter(|(c, ds)| ds.len() >= 2 && self.class(c).map(|ci| ci.fields.values().any(|(t, fd)| *t == Ty::Int && !self.p.decls[*fd].overridden && !self.uninit.contains(fd))).unwrap_or(false))
+            .collect();
+        if !over_defs.is_empty() && self.rng.chance(1, 4) && self.on("foreach-over-defs") {
+            let (c, ds) = over_defs[self.rng.below(over_defs.len())].clone();
+            let st = self.here();
+            self.w("foreach ");
+            let name = self.fresh("r");
+            let ty = Ty::Class(c.clone());
+            // (no declared type to show: the iterator's type is whatever the elements are)
+            let d = self.declare(DeclKind::ForeachVar, &name, None, None, None);
+            self.w(" = [");
+            self.ident(&ds[0].0, Role::Use(ds[0].1));
+            self.w(", ");
+            self.ident(&ds[1].0, Role::Use(ds[1].1));
+            self.w("] in {");
+            self.indent += 1;
+            self.depth += 1;
+            self.scopes.push(vec![Var { name: name.clone(), ty, decl: d }]);
+            self.p.feat.nested_scopes = self.p.feat.nested_scopes.max(self.scopes.len());
+            for _ in 0..1 + self.rng.below(2) {
+                self.nl();
+                self.w("defvar ");
+                let vn = self.fresh("v");
+                let vd = self.declare(DeclKind::Defvar, &vn, Some(Ty::Int), None, None);
+                self.w(" = ");
+                self.w("!add(");
+                self.field_access(&Ty::Int, 1);
+                self.w(", 1);");
+                self.scopes.last_mut().unwrap().push(Var { name: vn, ty: Ty::Int, decl: vd });
+            }
+            let popped = self.scopes.pop().unwrap();
+            for v in popped {
+                self.dead.push((v.name, v.decl));
+            }
+            self.depth -= 1;
+            self.indent -= 1;
+            self.nl();
+            self.w("}");
+            self.span("foreach-over-defs", st);
+            let top = self.depth == 0;
+            let ds2 = self.in_defset;
+            self.stmt_end("Foreach", start, None, top, ds2);
+            return;
+        }
         self.w("foreach ");
         let name = self.fresh("i");
         let d = self.declare(DeclKind::ForeachVar, &name, Some(Ty::Int), None, None);
